@@ -32,11 +32,11 @@ theorem dropWhile_append_all {β : Type} (p : β → Bool) (l1 l2 : List β) (h 
 
 theorem takeWhile_stop {β : Type} (p : β → Bool) (l1 : List β) (a : β) (l2 : List β)
     (h : ∀ c ∈ l1, p c = true) (ha : p a = false) : (l1 ++ a :: l2).takeWhile p = l1 := by
-  rw [takeWhile_append_all p l1 _ h]; simp [List.takeWhile_cons, ha]
+  rw [takeWhile_append_all p l1 _ h]; simp [ha]
 
 theorem dropWhile_stop {β : Type} (p : β → Bool) (l1 : List β) (a : β) (l2 : List β)
     (h : ∀ c ∈ l1, p c = true) (ha : p a = false) : (l1 ++ a :: l2).dropWhile p = a :: l2 := by
-  rw [dropWhile_append_all p l1 _ h]; simp [List.dropWhile_cons, ha]
+  rw [dropWhile_append_all p l1 _ h]; simp [ha]
 
 theorem takeWhile_all {β : Type} (p : β → Bool) (l : List β) (h : ∀ c ∈ l, p c = true) : l.takeWhile p = l := by
   have := takeWhile_append_all p l [] h
@@ -52,7 +52,7 @@ theorem sumW_eq (l : List C) (acc : Rat) : sumW l acc = acc + (sumWeights l : Ra
   | nil => simp [sumW]
   | cons c t ih =>
     simp only [sumW, List.foldl_cons] at ih ⊢
-    rw [ih]; simp; push_cast; ring
+    rw [ih]; simp; ring
 
 /-! ### the decomposition of a sorted list at a value -/
 
@@ -167,7 +167,7 @@ def P (l : List C) : Rat :=
 
 theorem P_append_singleton (l : List C) (e : C) : P (l ++ [e]) = (sumWeights l : Rat) + (e.weight : Rat) / 2 := by
   unfold P
-  simp; push_cast; ring
+  simp; ring
 
 theorem P_nonneg (l : List C) : 0 ≤ P l := by
   unfold P
@@ -178,7 +178,7 @@ theorem P_nonneg (l : List C) : 0 ≤ P l := by
       have := List.getLast?_eq_some_iff.1 h
       obtain ⟨l', hl⟩ := this
       exact ⟨l', hl⟩
-    simp; push_cast
+    simp
     have h1 : (0 : Rat) ≤ (sumWeights l' : Rat) := Nat.cast_nonneg _
     have h2 : (0 : Rat) ≤ (e.weight : Rat) := Nat.cast_nonneg _
     linarith
@@ -192,14 +192,14 @@ theorem P_le_sum (l : List C) : P l ≤ (sumWeights l : Rat) := by
     simp only []; linarith
 
 /-- `P` is monotone along prefixes -/
-theorem P_mono (l m : List C) (hl : l ≠ []) : P l ≤ P (l ++ m) := by
+theorem P_mono (l m : List C) (_hl : l ≠ []) : P l ≤ P (l ++ m) := by
   rcases List.eq_nil_or_concat m with rfl | ⟨m', e, rfl⟩
   · simp
   · rw [List.concat_eq_append, ← List.append_assoc, P_append_singleton]
     have h1 := P_le_sum l
     have h2 : (0 : Rat) ≤ (sumWeights m' : Rat) := Nat.cast_nonneg _
     have h3 : (0 : Rat) ≤ (e.weight : Rat) := Nat.cast_nonneg _
-    simp; push_cast; linarith
+    simp; linarith
 
 /-! ### evaluation of `rankMid` -/
 
@@ -232,7 +232,7 @@ theorem rankMid_eq (h : Split cs x lt eq gt) (cwD : Rat) {e0 e1 : C} {t i : List
   rw [List.getLast?_append_of_ne_nil _ (by rw [h1]; simp), hlast]
   simp only []
   rw [h1]
-  simp; push_cast; ring
+  simp; ring
 
 /-- (A): the value lies strictly between the last centroid `lo` below it and the first centroid `r0` above it -/
 theorem rankMid_between (h : Split cs x lt [] gt) (cwD : Rat) {lo r0 : C} {i t : List C}
@@ -260,6 +260,6 @@ theorem rankMid_between (h : Split cs x lt [] gt) (cwD : Rat) {lo r0 : C} {i t :
   rw [hlast]
   simp only []
   rw [hl]
-  simp; push_cast; ring
+  simp; ring
 
 end DS.TDigest
